@@ -17,6 +17,8 @@ DENS = [1, 2, 4, 5, 8, 10, 16, 20, 25, 40, 50, 80, 100, 125, 200, 250, 400, 500]
 def gaf_line(r, k):
     cg = "".join(f"{n}{op}" for n, op in r["cg"])
     opt = ([f"tp:A:{r['tp']}"] if r["tp"] else []) + ["NM:i:1"] + ([f"cg:Z:{cg}"] if cg else [])     # the cg tag is optional
+    if k % 3 == 2 and cg:      # the order of the optional fields is free: here the CIGAR comes first
+        opt = [f"cg:Z:{cg}"] + [t for t in opt if not t.startswith("cg:Z:")]
     if k % 3 == 1:      # aligner-specific tags that restate (here: contradict) the mandatory columns must not be used for the figures
         opt += ["id:f:0.123", "dv:f:0.9", "AS:i:-7", "ql:i:5"]
     return "\t".join([r["name"], str(r["qlen"]), str(r["qs"]), str(r["qe"]), "+-"[k % 2], ">s1>s2", "1000", "0", str(r["bl"]),
@@ -44,6 +46,9 @@ def parse_report(txt):
     for k, p in (("del", "deletion"), ("ins", "insertion"), ("sub", "substitution"), ("mat", "match")):
         m = re.search(r"Total %s regions: (\d+) \((\d+) >50bps\)" % p, txt)
         o[k] = int(m.group(1)) if m else -1
+        o["big" + k] = int(m.group(2)) if m else -1
+    m = re.search(r"Total perfect alignments \(exact match\): (\d+)", txt)
+    o["perfect"] = int(m.group(1)) if m else -1
     # the report is exactly ONE report: every figure once, and nothing that is not part of it
     o["n_reports"] = len(re.findall(r"^Total alignments:", txt, re.M))
     known = re.compile(r"^(Total alignments:|\tPrimary:|\tSecondary:|Reads with at least one alignment:|Total aligned bases:|Average mapping quality:|"
